@@ -85,8 +85,8 @@ theorem execute_nr_future (s : St) (j : Nat) (due : Int) (hnr : (s.job j).nextRu
   unfold execute
   simp only []
   generalize hs0 : (if (s.job j).execFail.contains (s.job j).execs = true then
-      (((s.emit (Ev.exec j s.now due)).setJob j { s.job j with execs := (s.job j).execs + 1 })).emit (Ev.exc "CallableError")
-    else ((s.emit (Ev.exec j s.now due)).setJob j { s.job j with execs := (s.job j).execs + 1 })) = s0
+      (((s.emit (Ev.exec j s.now due)).setJob j { s.job j with execs := (s.job j).execs + 1, lastRun := some s.now })).emit (Ev.exc "CallableError")
+    else ((s.emit (Ev.exec j s.now due)).setJob j { s.job j with execs := (s.job j).execs + 1, lastRun := some s.now })) = s0
   have h0 : s0.now = s.now ∧ (s0.job j).nextRun = some due := by
     subst hs0
     split <;> exact ⟨rfl, by simp [St.job, St.setJob, St.emit]; exact hnr⟩
@@ -400,10 +400,10 @@ theorem execute_ord (s : St) (j : Nat) (due : Int) (hI : Inv s) (hj : j ∉ s.qu
   unfold execute
   simp only []
   generalize hs0 : (if (s.job j).execFail.contains (s.job j).execs = true then
-      (((s.emit (Ev.exec j s.now due)).setJob j { s.job j with execs := (s.job j).execs + 1 })).emit (Ev.exc "CallableError")
-    else ((s.emit (Ev.exec j s.now due)).setJob j { s.job j with execs := (s.job j).execs + 1 })) = s0
-  have hb : JobOK ({ s.job j with execs := (s.job j).execs + 1 } : Job) := hI.st j
-  have hA : Inv ((s.emit (Ev.exec j s.now due)).setJob j { s.job j with execs := (s.job j).execs + 1 }) :=
+      (((s.emit (Ev.exec j s.now due)).setJob j { s.job j with execs := (s.job j).execs + 1, lastRun := some s.now })).emit (Ev.exc "CallableError")
+    else ((s.emit (Ev.exec j s.now due)).setJob j { s.job j with execs := (s.job j).execs + 1, lastRun := some s.now })) = s0
+  have hb : JobOK ({ s.job j with execs := (s.job j).execs + 1, lastRun := some s.now } : Job) := hI.st j
+  have hA : Inv ((s.emit (Ev.exec j s.now due)).setJob j { s.job j with execs := (s.job j).execs + 1, lastRun := some s.now }) :=
     (InvEx_setJob _ ((Inv_emit _ hI (by simpa [evOK] using hdue)).toEx j) hb).toInv hj
   have hfr : ∀ s' : St, s'.queue = s.queue → (∀ x, x ≠ j → s'.nr x = s.nr x) → ∀ d, DueGe d s → DueGe d s' :=
     fun s' hq hnr d hd => DueGe_frame hd hq (fun x hx => hnr x (by intro e; subst e; exact hj hx))
